@@ -1985,6 +1985,15 @@ func (s *Netceptor) removeConnection(remoteNodeID string) {
 		s.connLock.Unlock()
 		verifhook.Gate("remove_between_sections")
 		s.knownNodeLock.Lock()
+		s.connLock.RLock()
+		_, reconnected := s.connections[remoteNodeID]
+		s.connLock.RUnlock()
+		if reconnected {
+			// a new session of this peer has been admitted since the entry was deleted above: the edge is its now
+			s.knownNodeLock.Unlock()
+
+			return
+		}
 		_, ok := s.knownConnectionCosts[remoteNodeID]
 		if ok {
 			delete(s.knownConnectionCosts[remoteNodeID], s.nodeID)
